@@ -149,12 +149,17 @@ class InterpBase:
         self.stack = []
         self.warnings = []
         self.seq = 0
+        self.collect = set()
+        self.collected = []
 
     # ------------------------------------------------------------ utilities
     def event(self, st, fr, kind, node, data=None):
         self.seq += 1
         ev = Event(kind, node, data, fr.func if fr else None, fr.depth if fr else 0, self.seq)
         st.trace.append(ev)
+        if kind in self.collect:
+            # kept even if the path that produced it is later merged with an equivalent one
+            self.collected.append((ev, [f for f, _r in self.stack]))
         return ev
 
     def warn(self, msg):
